@@ -1083,6 +1083,198 @@ def userff_stage(ctx, scratch: Path):
 
 
 # ---------------------------------------------------------------------------
+# general request histories: every command-line option twice, failing-run families
+#
+# Same protocol as the user-force-field histories, generalised: an event is
+# ["write", file, content-id] or ["run", {"struct": <file in the directory>, "opts": [...]}];
+# "{D}" in an option stands for the history's directory.  ORACLE: the same request (same
+# option list, same file contents) alone in a fresh process.
+
+RQ_BASE_A = ["--ff=PARSE", "--titration-state-method=propka", "--with-ph=2.0"]
+RQ_BASE_B = ["--ff=AMBER", "--titration-state-method=propka", "--with-ph=9.0"]
+RQ_PATH_DESTS = {"userff", "usernames", "ligand"}  # covered by the failing-file families
+RQ_SIDE_FILES = {"pdb_output": "{D}/side.pdb", "apbs_input": "{D}/side.in"}
+
+
+def rq_contents():
+    from harness import builder
+
+    c = uff_contents()
+    seq_a = ["ALA", "ASP", "GLU", "HIS", "LYS", "TYR", "ALA"]
+    seq_b = ["GLY", "LYS", "ASP", "CYS", "HIS", "GLU", "SER", "ARG"]
+    two = [builder.build_peptide(seq_a, chain="A"), builder.build_peptide(seq_a, chain="B", origin=(40.0, 0.0, 0.0))]
+    other = [builder.build_peptide(seq_b, chain="A"), builder.build_peptide(seq_b[::-1], chain="B", origin=(0.0, 40.0, 0.0))]
+    c["two"] = builder.to_pdb(two)  # two identical chains, titratable residues: a chain-restricted titration shows at pH 2
+    c["other"] = builder.to_pdb(other)
+    nm = c["N1"]
+    k = nm.find("</atom>", len(nm) // 2)
+    c["N-badtag"] = nm[:k] + "</atmo>" + nm[k + 7 :]  # mistyped closing tag mid-document
+    k = nm.find("</name>", len(nm) // 2)
+    c["N-amp"] = nm[:k] + " & co" + nm[k:]  # stray ampersand mid-document
+    k = nm.find("</residue>") + len("</residue>")
+    c["N-useres"] = nm[:k] + "\n  <residue>\n    <name>ASH</name>\n    <useresname>ZZZQ</useresname>\n  </residue>" + nm[k:]  # names a residue the DAT lacks
+    c["N-trunc"] = nm[: nm.rfind("</")]  # fails at the very end (root element never closed)
+    c["P-garbage"] = "this is not a structure file\n" * 5 + "ATOM garbage garbage\n"
+    c["P-trunc"] = c["two"][: len(c["two"]) // 3]
+    c["L-garbage"] = "@<TRIPOS>MOLECULE\nnot a molecule\n@<TRIPOS>ATOM\n  1 XX abc def\n"
+    return c
+
+
+def rq_run(struct, opts):
+    return ["run", {"struct": struct, "opts": list(opts)}]
+
+
+def rq_option_variants():
+    """[(dest, [args...])]: every optional argument of the main parser at a non-default value."""
+    from pdb2pqr import main as pmain
+    from pdb2pqr.config import IGNORED_PROPKA_OPTIONS
+
+    out = []
+    for a in pmain.build_main_parser()._actions:
+        if not a.option_strings or a.dest in ("help", "version") or a.dest in RQ_PATH_DESTS:
+            continue
+        flag = sorted(a.option_strings, key=len)[-1]
+        cls = type(a).__name__
+        if cls in ("_StoreTrueAction", "_StoreFalseAction", "_StoreConstAction", "_AppendConstAction", "_CountAction"):
+            args = [flag]
+        elif a.dest in RQ_SIDE_FILES:
+            args = [f"{flag}={RQ_SIDE_FILES[a.dest]}"]
+        elif a.choices:
+            ch = [c for c in a.choices if str(c).lower() != str(a.default).lower()]
+            if not ch:
+                continue
+            args = [flag, str(ch[0])]
+        elif a.type in (float, int) or isinstance(a.default, (int, float)) and not isinstance(a.default, bool):
+            base = a.default if isinstance(a.default, (int, float)) else 3
+            v = base + 1
+            args = [flag, str(int(v)) if a.type is int or isinstance(a.default, int) else str(float(v))]
+        else:
+            args = [flag, "A"]
+        if isinstance(a.nargs, int) and a.nargs > 1:
+            args = [flag] + [args[-1]] * a.nargs
+        out.append((a.dest, args, a.dest in IGNORED_PROPKA_OPTIONS))
+    return out
+
+
+RQ_FAILING = {
+    # kind -> (files to write, failing request): user names file failing mid-document in three ways and at the end,
+    # DAT with a bad line, missing files, garbage / truncated structure, garbage / missing ligand
+    # (a missing STRUCTURE path is a PDB-ID download attempt - network - and stays in FAIL_THOROUGH only)
+    "names-badtag": ([("N.names", "N-badtag")], ("two.pdb", ["--userff={D}/U.dat", "--usernames={D}/N.names"])),
+    "names-amp": ([("N.names", "N-amp")], ("two.pdb", ["--userff={D}/U.dat", "--usernames={D}/N.names"])),
+    "names-useres": ([("N.names", "N-useres")], ("two.pdb", ["--userff={D}/U.dat", "--usernames={D}/N.names"])),
+    "names-trunc": ([("N.names", "N-trunc")], ("two.pdb", ["--userff={D}/U.dat", "--usernames={D}/N.names"])),
+    "dat-bad-mid": ([("Ubad.dat", "BAD-mid")], ("two.pdb", ["--userff={D}/Ubad.dat", "--usernames={D}/N1.names"])),
+    "dat-bad-end": ([("Ubad.dat", "BAD-end")], ("two.pdb", ["--userff={D}/Ubad.dat", "--usernames={D}/N1.names"])),
+    "missing-names": ([], ("two.pdb", ["--userff={D}/U.dat", "--usernames={D}/nonexistent.names"])),
+    "missing-dat": ([], ("two.pdb", ["--userff={D}/nonexistent.dat", "--usernames={D}/N1.names"])),
+    "pdb-garbage": ([("bad.pdb", "P-garbage")], ("bad.pdb", ["--ff=AMBER"])),
+    "pdb-truncated": ([("bad.pdb", "P-trunc")], ("bad.pdb", ["--ff=AMBER"])),
+    "ligand-garbage": ([("bad.mol2", "L-garbage")], ("two.pdb", ["--ff=AMBER", "--ligand={D}/bad.mol2"])),
+    "ligand-missing": ([], ("two.pdb", ["--ff=AMBER", "--ligand={D}/nonexistent.mol2"])),
+}
+RQ_INIT = [["write", "two.pdb", "two"], ["write", "other.pdb", "other"], ["write", "U.dat", "A"], ["write", "N1.names", "N1"]]
+RQ_BUILTIN = ("two.pdb", ["--ff=AMBER"])
+RQ_GOOD_USER = ("two.pdb", ["--userff={D}/U.dat", "--usernames={D}/N1.names"])
+
+
+def rq_shapes(ctx):
+    """name -> (class, events).  Quick: every ignored PROPKA option + a seeded sample of the other options,
+    every failing kind in one order; thorough: every option, both orders."""
+    shapes = {}
+    variants = rq_option_variants()
+    ignored = [v for v in variants if v[2]]
+    others = [v for v in variants if not v[2]]
+    if not ctx.thorough:
+        ctx.rng.shuffle(others)
+        others = others[:7]
+    for dest, args, ign in ignored + others:
+        a, b = rq_run("two.pdb", RQ_BASE_A + args), rq_run("other.pdb", RQ_BASE_B + args)
+        # the same run twice, then after a different structure (passing the option too), then once more
+        shapes[f"opt:{args[0].split('=')[0]}"] = ("option-twice", RQ_INIT + [a, a, b, a, rq_run("two.pdb", RQ_BASE_A)])
+    for kind, (writes, (st, opts)) in RQ_FAILING.items():
+        f = rq_run(st, opts)
+        ev = RQ_INIT + [["write", fn, cid] for fn, cid in writes]
+        shapes[f"fail:{kind}"] = ("failing-file", ev + [f, rq_run(*RQ_BUILTIN), rq_run(*RQ_GOOD_USER), f, rq_run(*RQ_GOOD_USER)])
+        if ctx.thorough:
+            shapes[f"fail2:{kind}"] = ("failing-file", ev + [rq_run(*RQ_GOOD_USER), f, rq_run(*RQ_GOOD_USER), rq_run(*RQ_BUILTIN), rq_run("other.pdb", RQ_BASE_B)])
+    return shapes
+
+
+def rq_key(req, state):
+    sub = lambda o: _re.sub(r"\{D\}/([\w.\-/]+)", lambda m: "<" + state.get(m.group(1), "absent") + ">", o)  # noqa: E731
+    return (state.get(req["struct"], "absent:" + req["struct"]), " ".join(sub(o) for o in req["opts"]))
+
+
+def rq_cfg(req, d: Path):
+    return (str(d / req["struct"]), [o.replace("{D}", str(d)) for o in req["opts"]])
+
+
+def rq_fresh(shapes, scratch: Path, contents):
+    keys = {}
+    for _, events in shapes.values():
+        state = {}
+        for ev in events:
+            if ev[0] == "write":
+                state[ev[1]] = ev[2]
+            else:
+                keys.setdefault(rq_key(ev[1], state), (ev[1], dict(state)))
+    jobs, order = [], []
+    for k, (key, (req, state)) in enumerate(sorted(keys.items())):
+        d = scratch / "rq_fresh" / str(k)
+        d.mkdir(parents=True, exist_ok=True)
+        for fn, cid in state.items():
+            (d / fn).write_text(contents[cid])
+        jobs.append((f"rq{k}", rq_cfg(req, d), "0"))
+        order.append(key)
+    res = run_children(jobs, scratch, maxpar=14)
+    fresh = {}
+    for (name, k), (b, info, _) in res.items():
+        fresh[order[k]] = ("child-died", None) if info.get("died") else uff_outcome(b, info.get("err"))
+    shutil.rmtree(scratch / "rq_fresh", ignore_errors=True)
+    return fresh
+
+
+def rq_execute(events, d: Path, scratch: Path, contents, fresh):
+    d.mkdir(parents=True, exist_ok=True)
+    state, diffs, runs = {}, [], []
+    for i, ev in enumerate(events):
+        if ev[0] == "write":
+            (d / ev[1]).write_text(contents[ev[2]])
+            state[ev[1]] = ev[2]
+            continue
+        key = rq_key(ev[1], state)
+        b, err = run_inproc(rq_cfg(ev[1], d), scratch, "q")
+        got = uff_outcome(b, err)
+        runs.append((i, key, got))
+        if key in fresh and fresh[key][0] != "child-died" and got != fresh[key]:
+            diffs.append((i, ev[1], key, got, fresh[key], err))
+    return diffs, runs
+
+
+def request_stage(ctx, scratch: Path):
+    contents = rq_contents()
+    shapes = rq_shapes(ctx)
+    fresh = rq_fresh(shapes, scratch, contents)
+    died = [k for k, v in fresh.items() if v[0] == "child-died"]
+    if died:
+        ctx.broke("harness-error", "fresh-process oracle of the request histories died", str(died[:3]))
+    ctx.cov["request_history_shapes"] = sorted(shapes)
+    ctx.cov["request_fresh_outcomes"] = {" :: ".join(k)[:160]: uff_describe(v) for k, v in sorted(fresh.items())}
+    for shape, (klass, events) in shapes.items():
+        d = scratch / ("rq_" + _re.sub(r"[^\w]", "_", shape))
+        diffs, runs = rq_execute(events, d, scratch, contents, fresh)
+        for n, (i, key, got) in enumerate(runs):
+            ctx.count(f"request:{klass}")
+            ctx.evaluated(("request", shape, i), n > 0)
+        for i, req, key, got, want, err in diffs[:1]:
+            field = first_diff_field(want[1], got[1]) if (got[0] is None and want[0] is None) else f"outcome:{got[0] or 'success'}-vs-{want[0] or 'success'}"
+            sig = {"kind": "request-history", "class": klass, "shape": shape, "field": field}
+            ctx.fail(sig, f"run #{i} of the in-process history '{shape}' (pdb2pqr {' '.join(req['opts'])} {req['struct']}) {uff_describe(got)}; the same request alone in a fresh process {uff_describe(want)}: {field}", {"kind": "request-history", "shape": shape, "events": events[: i + 1], "at": i, "history": [json.dumps(e) for e in events[: i + 1]][-12:], "first_error": err})
+        shutil.rmtree(d, ignore_errors=True)
+
+
+# ---------------------------------------------------------------------------
 # diagnosis of a byte difference -> signature
 
 FIELDS10 = ["record", "serial", "atom-name", "res-name", "res-seq", "x", "y", "z", "charge", "radius"]
@@ -1345,6 +1537,7 @@ def run(ctx):
     by = seeds_stage(ctx, configs, names, seeds, scratch, base)
     env_stage(ctx, data, configs, scratch, base, trace)
     userff_stage(ctx, scratch)
+    request_stage(ctx, scratch)
     k0 = next(iter(configs))
     ctx.sample({"in_process_history_sample": "A-fail-A", "config": k0, "cfg": list(configs[k0]), "bytes": len(base.get(k0) or b""), "sha256": hashlib.sha256(base.get(k0) or b"").hexdigest()})
     for name, runs in list(by.items())[:2]:
@@ -1399,6 +1592,16 @@ def replay(ctx, data):
             outs.add(hashlib.sha256(b or b"").hexdigest())
         print(f"replay: {len(outs)} distinct outputs over seeds {seeds}")
         return 1 if len(outs) > 1 else 0
+    if kind == "request-history":
+        import_all()
+        contents = rq_contents()
+        events = case["events"]
+        fresh = rq_fresh({"replay": ("replay", events)}, scratch, contents)
+        diffs, runs = rq_execute(events, scratch / "rq_replay", scratch, contents, fresh)
+        for i, req, key, got, want, err in diffs:
+            print(f"replay: run #{i} pdb2pqr {' '.join(req['opts'])} {req['struct']} in the history {uff_describe(got)}; alone in a fresh process it {uff_describe(want)}")
+        print(f"replay: {len(runs)} runs in the history, {len(diffs)} differ from the same request in a fresh process")
+        return 1 if diffs else 0
     if kind == "userff-history":
         import_all()
         contents = uff_contents()
